@@ -225,3 +225,43 @@ def check(run, prog, tier):
             run.ob("C19-d", inst, ok, "%s is also stored by %s() at line %s %s" % (what, g.name, n2.get("l"), "before the thread is created (not yet shared)" if ok else "while the %s (%s) may be running and storing it too: whichever store lands last wins" % (rname, wfn)),
                    g.file, n2.get("l"), g.name, what="%s is written by %s() and by the %s without synchronisation" % (what, g.name, rname))
     run.extra["cross_thread_write_sites"] = nd
+
+    # ---- C19-e a wake-up is never dropped: posting writes the eventfd, or the suppression flag is cleared by the drain
+    run.rule("C19-e", "async_runtime_wakeup: every successful return passes the write to the eventfd; if a 'pending' flag lets it return without writing, that flag is cleared only where the eventfd has just been read (drained), so a wake-up posted between two waits cannot be swallowed", 1)
+    wk = [f for f in efuncs if f.name == "async_runtime_wakeup"]
+    run.need(wk, "async_runtime_wakeup")
+    wk = wk[0]
+    run.saw(wk)
+    wcalls = [b.id for b, i, n in wk.calls("write") if n.get("args") and "event_fd" in show(n["args"][0])]
+    run.need(wcalls, "write to the eventfd in async_runtime_wakeup")
+    okrets = [b.id for b, i, n in wk.nodes() if n.get("k") == "Return" and n.get("e") is not None and not (const_val(n["e"]) is not None and const_val(n["e"]) < 0)]
+    p = wk.reach_avoiding([wk.entry], lambda blk: blk.id in okrets, avoid_blocks=wcalls)
+    if p is None:
+        run.ob("C19-e", "wakeup-writes", True, "every non-error return of async_runtime_wakeup() passes the eventfd write", wk.file, wk.line, "async_runtime_wakeup")
+    else:
+        # which flags allow the bypass?
+        flags = set()
+        for bid in p:
+            c = wk.branch_cond(bid)
+            if c is None:
+                continue
+            for x in walk(c):
+                if x.get("k") == "Mem" and x.get("f") not in ("event_fd", "epoll_fd"):
+                    flags.add(x.get("f"))
+        bad = []
+        for f in efuncs:
+            reads = [(b.id, i) for b, i, n in f.calls("read") if n.get("args") and "event_fd" in show(n["args"][0])]
+            for b, i, n in f.nodes():
+                clear = None
+                if n.get("k") == "Call" and n.get("fn") in ("atomic_store", "atomic_store_explicit", "__c11_atomic_store", "atomic_exchange", "__c11_atomic_exchange") and len(n.get("args", [])) >= 2 and const_val(n["args"][1]) == 0:
+                    clear = {x.get("f") for x in walk(n["args"][0]) if x.get("k") == "Mem"}
+                elif n.get("k") == "Asg" and n.get("op") == "=" and strip(n["L"]).get("k") == "Mem" and const_val(n["R"]) == 0:
+                    clear = {strip(n["L"]).get("f")}
+                if clear and clear & flags:
+                    if f.name == "async_runtime_wakeup":
+                        continue   # undoing its own set after a failed write
+                    if not any(f.point_dominates(r, (b.id, i)) for r in reads):
+                        bad.append("%s() line %s clears %s without having drained the eventfd" % (f.name, n.get("l"), sorted(clear & flags)))
+        run.ob("C19-e", "wakeup-writes", bool(flags) and not bad, "async_runtime_wakeup() may skip the write under %s; the flag is cleared only after the eventfd was read" % sorted(flags) if flags and not bad else
+               "async_runtime_wakeup() can return success without writing the eventfd (path %s) and %s" % (p[:6], "; ".join(bad) if bad else "no flag protocol was recognised"), wk.file, wk.line, "async_runtime_wakeup",
+               what="a wake-up can be reported as posted without reaching the eventfd while the loop has already consumed the earlier one: the backend sleeps through it (%s)" % ("; ".join(bad) if bad else "unconditional bypass"))
